@@ -161,6 +161,18 @@ func genTags(tier string, seed uint64) {
 			}
 		}
 	}
+	// a tagged map with transformed keys, then plain maps, inside one untyped container (and the other way round)
+	{
+		sl := tid(reflect.TypeOf([]interface{}{}))
+		km := "d81fa163611f6201"
+		for _, aid := range []int{2, 3} {
+			for _, tail := range []string{"a1616202", "a163781f7902", "a163782f7902", "a0", "a26161016162a1616302"} {
+				emit("unmbytes cbor %d %d 82%s%s", aid, sl, km, tail)
+				emit("unmbytes cbor %d %d 82%s%s", aid, sl, tail, km)
+				emit("unmbytes cbor %d %d 83%s%s%s", aid, sl, km, tail, km)
+			}
+		}
+	}
 	// foreign CBOR: registered and unregistered tags on every item kind, into an untyped slot and into typed slots
 	items := []string{"00", "20", "40", "4101", "60", "6161", "623432", "80", "8101", "a0", "a1617801", "a26178016179616b", "f4", "f6", "fb3ff8000000000000", "9fff", "bfff", "420102", "a1617360", "a161736161"}
 	tags := []uint64{0, 23, 24, 25, 100, 1100, 2100, 65536, 1 << 32}
